@@ -253,9 +253,11 @@ func (svc *service) stop() {
 	}
 
 	// Publish will message if WillFlag is set. Server side only.
-	if !svc.client && svc.sess.Cmsg.WillFlag() {
-		log.Warningf("(%s) Connection unexpectedly closed, sending will message", svc.cid())
-		svc.onPublish(svc.sess.Will)
+	if !svc.client {
+		if will := svc.sess.WillMessage(); will != nil {
+			log.Warningf("(%s) Connection unexpectedly closed, sending will message", svc.cid())
+			svc.onPublish(will)
+		}
 	}
 
 	// Remove the client topics manager
@@ -264,7 +266,7 @@ func (svc *service) stop() {
 	}
 
 	// Remove the session from session store if it's suppose to be clean session
-	if svc.sess.Cmsg.CleanSession() && svc.sessMgr != nil {
+	if svc.sess.CleanSession() && svc.sessMgr != nil {
 		svc.sessMgr.Del(svc.sess.ID())
 	}
 
